@@ -110,7 +110,7 @@ Lemma loop_detected_spec c hs :
   loop_detected c hs = true <->
   has_via hs = true /\ exists a b, via_value hs = a ++ c_str (this_cache2 c) ++ b.
 Proof.
-  unfold loop_detected. split.
+  unfold loop_detected, str_list_is_substr. split.
   - intros H. apply andb_true_iff in H. destruct H as [Hh Hs]. split; [exact Hh|].
     destruct (via_value hs) as [|x s] eqn:E; [discriminate|]. apply is_substr_spec. exact Hs.
   - intros [Hh [a [b Hab]]]. rewrite Hh. cbn [andb]. rewrite Hab.
